@@ -58,6 +58,15 @@ def h_resign(ctx, sig, spk, idx, ht_class):
     if g['vout']:
         g['vout'][0]['nValue'] = ctx.int('new_val', -(1 << 63), (1 << 63) - 1)
         tx.vout[0].nValue = g['vout'][0]['nValue']
+    # first after the in-place edits only (object identity and list lengths unchanged) ...
+    import copy
+    g_mid = dict(g)
+    g_mid['vin'] = [dict(i) for i in g['vin']]
+    g_mid['vout'] = [dict(o) for o in g['vout']]
+    h_mid = S.SignatureHash(S.CScript(code), tx, idx, ht, amount=amount, sigversion=S.SIGVERSION_WITNESS_V0)
+    ctx.check(h_mid == ctx.dsha256(SH.bip143_preimage(ctx, g_mid, code, idx, amount, ht)), 'bip143: digest after in-place edits == reference of the new values',
+              detail='same object, same list lengths')
+    # ... then after a length-changing edit as well
     newout = dict(nValue=ctx.int('app_val', 0, 1000), scriptPubKey=ctx.bytes('app_spk', 1))
     g['vout'].append(newout)
     tx.vout.append(C.CMutableTxOut(newout['nValue'], S.CScript(newout['scriptPubKey'])))
